@@ -2,35 +2,223 @@
 // Generates header chains with parameter-change schedules, logs every call with the projected
 // BFT store observed after it; spec/trace/LiskBFTTrace.tla validates the log.
 //
-// usage: c02 <out.ndjson> <meta.json> <chains>
+// Every chain is fed to the main node (flushed after every block) and to peers that must end in the same abstract state:
+//   shadow  the same calls, validator lists in another order, never flushed before the end of the chain;
+//   twin    (every fourth chain) the same chain with EVERY height shifted by S (2^16.., 2^24.., 2^31..) and every weight
+//           multiplied by K (2^32-1, 2^32, 10^17): the counting rules compare heights with each other and weights with
+//           thresholds only, so they are invariant under the shift and linear in the weights; the twin's observation is
+//           mapped back (x-S, w/K, ceil(threshold/K)) and validated by the SAME trace specification ("Peer" events).
+//
+// usage: c02 <out.ndjson> <meta.json> <chains> [std|big]
+//   big: one chain in the world of a main-net round (103 identities, batch 103, 101 active validators, window 309).
 package main
 
 import (
+	"bytes"
+	"encoding/json"
+	"errors"
 	"fmt"
 	"math/rand"
 	"os"
+	"sort"
 	"strconv"
+
+	"github.com/LiskHQ/lisk-engine/pkg/consensus/liskbft"
 
 	"verifharness/internal/bftx"
 	"verifharness/internal/tj"
 )
 
-const NVal = 5
+var NVal = 5
 
-type obsx struct {
-	*bftx.Obs
-	PAt   [][]uint64 `json:"pAt"`
-	NextP [][]uint32 `json:"nextP"`
+var meta = map[string]int{} // coverage counters, written to <meta.json>
+
+// scale maps the observation of a twin node back into the world of the main node.
+type scale struct {
+	S uint32
+	K uint64
 }
 
-func observe(n *bftx.Node, r *rand.Rand, tip uint32) (*obsx, error) {
-	o, err := n.Observe()
-	if err != nil {
-		return nil, err
+const bad = 900000000 // no model value is that large: an observation that cannot be mapped back never matches
+
+func cl(x uint64) uint64 { // TLC integers are 32 bit
+	if x > 2000000000 {
+		return 2000000000
 	}
-	ox := &obsx{Obs: o, PAt: [][]uint64{}, NextP: [][]uint32{}}
-	// probe GetBFTParameters / NextHeightBFTParameters at a few heights around the window
-	for i := 0; i < 3; i++ {
+	return x
+}
+
+func (s scale) h(x uint32) uint32 {
+	if s.S == 0 {
+		return uint32(cl(uint64(x)))
+	}
+	if x >= s.S && x-s.S < bad {
+		return x - s.S
+	}
+	return bad + x%1000000
+}
+
+func (s scale) w(x uint64) uint64 {
+	if s.K == 1 {
+		return cl(x)
+	}
+	if x%s.K == 0 {
+		return cl(x / s.K)
+	}
+	return bad + x%1000
+}
+
+// thr: K*v >= T  <=>  v >= ceil(T/K) for integers v
+func (s scale) thr(x uint64) uint64 {
+	if s.K == 1 {
+		return cl(x)
+	}
+	q := x / s.K
+	if x%s.K != 0 {
+		q++
+	}
+	return cl(q)
+}
+
+type obsx struct {
+	Mhpv   uint32       `json:"mhpv"`
+	Mhpc   uint32       `json:"mhpc"`
+	Cert   uint32       `json:"cert"`
+	Api    []uint32     `json:"api"`    // API.GetBFTHeights
+	ApiErr int          `json:"apiErr"` // 1: the store could not be decoded / an API returned an unexpected error
+	ApiMsg string       `json:"apiMsg,omitempty"`
+	Win    [][]uint64   `json:"win"`   // [h, gen, mhg, mhp, pv, pc] newest first
+	VInfo  [][]uint32   `json:"vinfo"` // per validator 1..N: [active, minActive, lhp]
+	PKeys  []uint32     `json:"pkeys"`
+	GKeys  []uint32     `json:"gkeys"`
+	PAt    [][]uint64   `json:"pAt"`   // GetBFTParameters(h): [h, found, pvT, pcT, certT]
+	PW     [][]uint64   `json:"pW"`    // ... its validators' weights by identity
+	PHash  []int        `json:"pHash"` // ... its validatorsHash = hash recomputed by the hand-written encoder
+	NextP  [][]uint32   `json:"nextP"` // NextHeightBFTParameters(h): [h, res]
+	GAt    [][]uint32   `json:"gAt"`   // GetGeneratorKeys(h): [found, ids ascending...]
+	LAt    [][][]uint64 `json:"lAt"`   // GetLabiValidators(params(h).Validators(), generators(h)): [id, weight] by id
+}
+
+func observe(n *bftx.Node, sc scale, heights []uint32) *obsx {
+	return project(n, n.ObserveAPI(), sc, heights)
+}
+
+func project(n *bftx.Node, o *bftx.ObsAPI, sc scale, heights []uint32) *obsx {
+	ox := &obsx{Mhpv: sc.h(o.Mhpv), Mhpc: sc.h(o.Mhpc), Cert: sc.h(o.Cert), Api: []uint32{sc.h(o.Api[0]), sc.h(o.Api[1]), sc.h(o.Api[2])},
+		Win: [][]uint64{}, VInfo: [][]uint32{}, PKeys: []uint32{}, GKeys: []uint32{},
+		PAt: [][]uint64{}, PW: [][]uint64{}, PHash: []int{}, NextP: [][]uint32{}, GAt: [][]uint32{}, LAt: [][][]uint64{}}
+	if o.ApiErr != "" {
+		ox.ApiErr, ox.ApiMsg = 1, o.ApiErr
+	}
+	for _, e := range o.Win {
+		ox.Win = append(ox.Win, []uint64{uint64(sc.h(uint32(e[0]))), e[1], uint64(sc.h(uint32(e[2]))), uint64(sc.h(uint32(e[3]))), sc.w(e[4]), sc.w(e[5])})
+	}
+	for _, v := range o.VInfo {
+		if v[0] == 0 {
+			ox.VInfo = append(ox.VInfo, []uint32{0, 0, 0})
+		} else {
+			ox.VInfo = append(ox.VInfo, []uint32{1, sc.h(v[1]), sc.h(v[2])})
+		}
+	}
+	for _, k := range o.PKeys {
+		ox.PKeys = append(ox.PKeys, sc.h(k))
+	}
+	for _, k := range o.GKeys {
+		ox.GKeys = append(ox.GKeys, sc.h(k))
+	}
+	api := n.Mod.API()
+	for _, h := range heights {
+		hh := h + sc.S
+		zero := make([]uint64, NVal)
+		p, perr := api.GetBFTParameters(n.Store, hh)
+		if perr != nil {
+			if !errors.Is(perr, liskbft.ErrBFTParamsNotFound) {
+				ox.ApiErr, ox.ApiMsg = 1, "GetBFTParameters: "+perr.Error()
+			}
+			ox.PAt = append(ox.PAt, []uint64{uint64(h), 0, 0, 0, 0})
+			ox.PW = append(ox.PW, zero)
+			ox.PHash = append(ox.PHash, 1)
+		} else {
+			ox.PAt = append(ox.PAt, []uint64{uint64(h), 1, sc.thr(p.PrevoteThreshold()), sc.thr(p.PrecommitThreshold()), sc.thr(p.CertificateThreshold())})
+			pw := zero
+			keys, ws := [][]byte{}, []uint64{}
+			known := true
+			for _, v := range p.Validators() {
+				id := bftx.ValOf(v.Address())
+				if id < 1 || id > NVal || pw[id-1] != 0 || v.BFTWeight() == 0 {
+					known = false // an identity of another world, twice the same one, or an entry without weight
+					break
+				}
+				pw[id-1] = sc.w(v.BFTWeight())
+				keys = append(keys, bftx.BLSKey(id)) // the key the identity registered, not the one the store returns
+				ws = append(ws, v.BFTWeight())
+			}
+			if sc.K > 1 && known {
+				// ceil(T/K) forgets the low-order digits of the prevote threshold; LIP-0058 fixes them: floor(2*total/3)+1,
+				// evaluated here in 64 bits on the scaled weights the store returned (compared with the model above)
+				t := uint64(0)
+				for _, x := range ws {
+					t += x
+				}
+				if p.PrevoteThreshold() != 2*t/3+1 {
+					ox.PAt[len(ox.PAt)-1][2] = bad + p.PrevoteThreshold()%1000
+				}
+			}
+			if !known {
+				ox.PW = append(ox.PW, []uint64{})
+				ox.PHash = append(ox.PHash, 0)
+			} else {
+				meta["probes_weights_and_hash"]++
+				ox.PW = append(ox.PW, pw)
+				ox.PHash = append(ox.PHash, tj.B(bytes.Equal(p.ValidatorsHash(), bftx.ValidatorsHashLIP(keys, ws, p.CertificateThreshold()))))
+			}
+		}
+		nh, err := api.NextHeightBFTParameters(n.Store, hh)
+		if err != nil {
+			ox.NextP = append(ox.NextP, []uint32{h, 0})
+		} else {
+			ox.NextP = append(ox.NextP, []uint32{h, sc.h(nh)})
+		}
+		gens, gerr := api.GetGeneratorKeys(n.Store, hh)
+		if gerr != nil {
+			if !errors.Is(gerr, liskbft.ErrGeneratorKeysNotFound) {
+				ox.ApiErr, ox.ApiMsg = 1, "GetGeneratorKeys: "+gerr.Error()
+			}
+			ox.GAt = append(ox.GAt, []uint32{0})
+		} else {
+			ids := []uint32{}
+			for _, g := range gens {
+				id := bftx.ValOf(g.Address())
+				if !bytes.Equal(g.GeneratorKey(), bftx.GenKey(id)) {
+					id = 0 // the key of somebody else
+				}
+				ids = append(ids, uint32(id))
+			}
+			sort.Slice(ids, func(a, b int) bool { return ids[a] < ids[b] })
+			ox.GAt = append(ox.GAt, append([]uint32{1}, ids...))
+			meta["probes_generator_keys"]++
+		}
+		la := [][]uint64{}
+		if perr == nil && gerr == nil {
+			for _, v := range liskbft.GetLabiValidators(p.Validators(), gens) {
+				la = append(la, []uint64{uint64(bftx.ValOf(v.Address)), sc.w(v.BFTWeight)})
+			}
+			sort.Slice(la, func(a, b int) bool { return la[a][0] < la[b][0] })
+			meta["probes_labi_validators"]++
+			if len(la) > len(p.Validators()) {
+				meta["probes_labi_with_standby"]++
+			}
+		}
+		ox.LAt = append(ox.LAt, la)
+	}
+	return ox
+}
+
+// probeHeights: a few heights around the window, always including the smallest height whose parameters must still be
+// retained (min(oldest window height, certified+1)).
+func probeHeights(r *rand.Rand, o *bftx.ObsAPI, tip uint32) []uint32 {
+	hs := []uint32{}
+	for i := 0; i < 2; i++ {
 		var h uint32
 		switch r.Intn(3) {
 		case 0:
@@ -47,19 +235,13 @@ func observe(n *bftx.Node, r *rand.Rand, tip uint32) (*obsx, error) {
 				}
 			}
 		}
-		p, err := n.Mod.API().GetBFTParameters(n.Store, h)
-		if err != nil {
-			ox.PAt = append(ox.PAt, []uint64{uint64(h), 0, 0, 0, 0})
-		} else {
-			ox.PAt = append(ox.PAt, []uint64{uint64(h), 1, p.PrevoteThreshold(), p.PrecommitThreshold(), p.CertificateThreshold()})
-		}
-		nh, err := n.Mod.API().NextHeightBFTParameters(n.Store, h)
-		if err != nil {
-			nh = 0
-		}
-		ox.NextP = append(ox.NextP, []uint32{h, nh})
+		hs = append(hs, h)
 	}
-	return ox, nil
+	minReq := o.Cert + 1
+	if len(o.Win) > 0 && uint32(o.Win[len(o.Win)-1][0]) < minReq {
+		minReq = uint32(o.Win[len(o.Win)-1][0])
+	}
+	return append(hs, minReq)
 }
 
 func total(w []uint64) uint64 {
@@ -68,6 +250,16 @@ func total(w []uint64) uint64 {
 		t += x
 	}
 	return t
+}
+
+func active(w []uint64) int {
+	n := 0
+	for _, x := range w {
+		if x > 0 {
+			n++
+		}
+	}
+	return n
 }
 
 func randWeights(r *rand.Rand, batch int) []uint64 {
@@ -86,9 +278,15 @@ func randWeights(r *rand.Rand, batch int) []uint64 {
 	}
 }
 
+// bigWorld: thresholds mostly at or below the prevote threshold, so that the long chain keeps finalising
+var bigWorld bool
+
 func randThreshold(r *rand.Rand, w []uint64) uint64 {
 	t := total(w)
 	lo := t/3 + 1
+	if bigWorld && r.Intn(4) != 0 {
+		return lo + uint64(r.Intn(int(2*t/3+1-lo)+1))
+	}
 	switch r.Intn(12) {
 	case 0:
 		return lo - 1 // invalid
@@ -102,40 +300,138 @@ func randThreshold(r *rand.Rand, w []uint64) uint64 {
 	return lo + uint64(r.Intn(int(t-lo)+1))
 }
 
+// peer: another real node that receives the same chain.
+type peer struct {
+	n     *bftx.Node
+	kind  string // "shadow" | "twin"
+	sc    scale
+	flush bool
+	r     *rand.Rand // order of the validator lists offered to this node
+	done  bool       // diverged: its observation was handed to the trace specification, nothing more is compared
+}
+
+func enc(a *obsx) []byte {
+	x, _ := json.Marshal(a)
+	return x
+}
+
 func main() {
 	if len(os.Args) < 4 {
-		fmt.Fprintln(os.Stderr, "usage: c02 out.ndjson meta.json chains")
+		fmt.Fprintln(os.Stderr, "usage: c02 out.ndjson meta.json chains [std|big]")
 		os.Exit(2)
 	}
 	chains, _ := strconv.Atoi(os.Args[3])
+	big := len(os.Args) > 4 && os.Args[4] == "big"
+	thorough := os.Getenv("VERIF_TIER") == "thorough"
+	if big {
+		NVal = 103
+		bigWorld = true
+	}
 	seed := int64(tj.EnvInt("VERIF_SEED", 1))
 	r := rand.New(rand.NewSource(seed))
 	w, err := tj.NewWriter(os.Args[1])
 	if err != nil {
 		panic(err)
 	}
-	meta := map[string]int{}
 	fail := func(msg string) {
 		w.Close()
 		tj.WriteJSON(os.Args[2], map[string]interface{}{"error": msg})
 		os.Exit(3)
 	}
+	ks := []uint64{1<<32 - 1, 1 << 32, 100000000000000000, 1}
 	for c := 0; c < chains; c++ {
 		batch := 2 + r.Intn(4)
+		if big {
+			batch = 103
+		}
 		win := 3 * batch
 		h0 := uint32(0)
 		if r.Intn(3) == 0 {
 			h0 = uint32(1 + r.Intn(4))
 		}
-		rr := c%5 == 0 // every fifth chain: fault-free round robin with equal weights
+		rr := c%5 == 0 && !big // every fifth chain: fault-free round robin with equal weights
+		noParam := c%20 == 7 && !big // the first parameter set is rejected, then a header arrives
 		n, err := bftx.NewNode(batch, NVal, h0)
 		if err != nil {
 			fail(err.Error())
 		}
-		// shadow node: receives the same calls but is flushed only at the end of the chain
+		rs := rand.New(rand.NewSource(seed*1000003 + int64(c)))
+		peers := []*peer{}
+		// shadow node: receives the same calls (lists in another order) but is flushed only at the end of the chain
 		n2, err := bftx.NewNode(batch, NVal, h0)
 		if err != nil {
 			fail(err.Error())
+		}
+		peers = append(peers, &peer{n: n2, kind: "shadow", sc: scale{0, 1}, r: rand.New(rand.NewSource(rs.Int63()))})
+		if c%4 == 1 || big {
+			sc := scale{K: ks[rs.Intn(len(ks))]}
+			switch rs.Intn(4) {
+			case 0:
+				sc.S = 1<<16 + uint32(rs.Intn(1000))
+			case 1:
+				sc.S = 1<<31 + uint32(rs.Intn(1000))
+			default:
+				sc.S = 1<<24 + uint32(rs.Intn(1000))
+			}
+			if big {
+				sc.K = 1 << 32 // 300 * 10^17 does not fit into 64 bits
+			}
+			n3, err := bftx.NewNode(batch, NVal, h0+sc.S)
+			if err != nil {
+				fail(err.Error())
+			}
+			peers = append(peers, &peer{n: n3, kind: "twin", sc: sc, flush: true, r: rand.New(rand.NewSource(rs.Int63()))})
+			meta["twin_chains"]++
+			if sc.K > 1 {
+				meta["twin_chains_scaled"]++
+			}
+		}
+		rm := rand.New(rand.NewSource(rs.Int63())) // order of the lists offered to the main node
+		ended := false
+		// watch observes the main node after a call and compares every peer with it; a peer that differs (or every peer,
+		// when final) is handed to the trace specification as a Peer event
+		emitPeer := func(p *peer, po *obsx, when string) {
+			w.Emit(map[string]interface{}{"ev": "Peer", "kind": p.kind, "when": when, "S": strconv.FormatUint(uint64(p.sc.S), 10), "K": strconv.FormatUint(p.sc.K, 10), "obs": po})
+			meta["peer_events_"+p.kind]++
+		}
+		var cur *bftx.ObsAPI // the main node's store after the latest call
+		watch := func(tip uint32) *obsx {
+			cur = n.ObserveAPI()
+			return project(n, cur, scale{0, 1}, probeHeights(r, cur, tip))
+		}
+		comparePeers := func(mo *obsx, final bool) {
+			hs := []uint32{}
+			for _, p := range mo.PAt {
+				hs = append(hs, uint32(p[0]))
+			}
+			var me []byte
+			for _, p := range peers {
+				if p.done {
+					continue
+				}
+				if !final && p.kind == "shadow" && rs.Intn(4) != 0 {
+					continue
+				}
+				if me == nil {
+					me = enc(mo)
+				}
+				po := observe(p.n, p.sc, hs)
+				meta["peer_steps_"+p.kind]++
+				if p.kind == "twin" && mo.Mhpc > h0 {
+					meta["twin_steps_with_finality"]++
+				}
+				if !bytes.Equal(enc(po), me) {
+					emitPeer(p, po, "diverged")
+					p.done = true
+					meta["peer_diverged"]++
+				} else if final {
+					emitPeer(p, po, "end")
+					if p.kind == "shadow" {
+						p.n.Flush() // ... and once more from the persisted encoding
+						emitPeer(p, observe(p.n, p.sc, hs), "flushed")
+					}
+				}
+			}
 		}
 		var wts []uint64
 		var pcT, certT uint64
@@ -155,150 +451,290 @@ func main() {
 			if 2*q > win {
 				rr = false
 			}
+		} else if big {
+			wts = make([]uint64, NVal)
+			for i := 0; i < 101; i++ {
+				wts[i] = 1
+				if r.Intn(4) == 0 {
+					wts[i] = uint64(2 + r.Intn(2))
+				}
+			}
+			pcT, certT = randThreshold(r, wts), randThreshold(r, wts)
+			for pcT < total(wts)/3+1 || pcT > total(wts) {
+				pcT = randThreshold(r, wts)
+			}
+			for certT < total(wts)/3+1 || certT > total(wts) {
+				certT = randThreshold(r, wts)
+			}
 		} else {
 			for {
 				wts = randWeights(r, batch)
 				pcT, certT = randThreshold(r, wts), randThreshold(r, wts)
 				t := total(wts)
 				if pcT >= t/3+1 && pcT <= t && certT >= t/3+1 && certT <= t {
-					act := 0
-					for _, x := range wts {
-						if x > 0 {
-							act++
-						}
-					}
-					if act <= batch {
+					if active(wts) <= batch {
 						break
 					}
 				}
 			}
 		}
-		o, err := observe(n, r, h0)
-		if err != nil {
-			fail(err.Error())
-		}
+		o := watch(h0)
 		w.Emit(map[string]interface{}{"ev": "Init", "h0": h0, "win": win, "rr": tj.B(rr), "q": q, "obs": o})
-		setParams := func(pc, ce uint64, ws []uint64, tip uint32) {
+		comparePeers(o, false)
+		// setParams: one answer of the application (thresholds + validator list incl. standby entries of weight 0), offered to
+		// every node in its own order through the engine's conversion; returns whether the main node accepted it
+		setParams := func(pc, ce uint64, ws []uint64, tip uint32) bool {
 			gens := []int{}
 			for i, x := range ws {
-				if x > 0 || r.Intn(6) == 0 {
+				if x > 0 || r.Intn(6) == 0 || (big && i >= 101) {
 					gens = append(gens, i+1)
+					if x == 0 {
+						meta["standby_entries"]++
+					}
 				}
 			}
-			err := n.SetParams(pc, ce, ws, gens)
-			n2.SetParams(pc, ce, ws, gens) //nolint
-			o, oerr := observe(n, r, tip)
-			if oerr != nil {
-				fail(oerr.Error())
+			list := func(rn *rand.Rand, k uint64) []bftx.LV {
+				l := []bftx.LV{}
+				for _, g := range gens {
+					l = append(l, bftx.LV{ID: g, W: ws[g-1] * k})
+				}
+				rn.Shuffle(len(l), func(a, b int) { l[a], l[b] = l[b], l[a] })
+				return l
 			}
-			w.Emit(map[string]interface{}{"ev": "SetParams", "pcT": pc, "certT": ce, "w": ws, "gens": gens, "err": tj.B(err != nil), "obs": o})
+			ml := list(rm, 1)
+			sorted := sort.SliceIsSorted(ml, func(a, b int) bool { return ml[a].ID < ml[b].ID })
+			if !sorted {
+				meta["shuffled_sets"]++
+			}
+			err := n.SetParamsLabi(pc, ce, ml)
+			errP := []int{}
+			for _, p := range peers {
+				e := p.n.SetParamsLabi(pc*p.sc.K, ce*p.sc.K, list(p.r, p.sc.K))
+				errP = append(errP, tj.B(e != nil))
+			}
+			o := watch(tip)
+			w.Emit(map[string]interface{}{"ev": "SetParams", "pcT": pc, "certT": ce, "w": ws, "gens": gens, "err": tj.B(err != nil), "errP": errP, "obs": o})
+			comparePeers(o, false)
 			if err != nil {
 				meta["setparams_rejected"]++
 			} else {
 				meta["setparams_ok"]++
 			}
+			return err == nil
 		}
-		setParams(pcT, certT, wts, h0)
+		if noParam {
+			// guaranteed to be rejected: the header that follows finds no parameters at all
+			bw := randWeights(r, batch)
+			for active(bw) > batch {
+				bw = randWeights(r, batch)
+			}
+			setParams(total(bw)/3, total(bw), bw, h0)
+		} else {
+			setParams(pcT, certT, wts, h0)
+			if r.Intn(10) == 0 && !rr {
+				// a second, different answer for the same next height (the entry of that height is overwritten, the vote info
+				// carried over a second time)
+				nw := randWeights(r, batch)
+				if big {
+					nw = append([]uint64{}, wts...)
+					nw[r.Intn(NVal)] = uint64(r.Intn(3))
+				}
+				npc, nce := randThreshold(r, nw), randThreshold(r, nw)
+				if setParams(npc, nce, nw, h0) {
+					wts, pcT, certT = nw, npc, nce
+				}
+				meta["double_set"]++
+			}
+		}
 		length := 5 + r.Intn(5*win)
 		if rr {
 			length = 2*q + 2 + r.Intn(2*win)
 		}
+		if big {
+			length = win + win/4 + r.Intn(20) // the window slides
+			if thorough {
+				length = 2*win + win/2 + r.Intn(20)
+			}
+		}
 		lastGen := map[int]uint32{}
 		tip := h0
-		for i := 0; i < length; i++ {
+		for i := 0; i < length && !ended; i++ {
 			h := tip + 1
 			var gen int
 			var mhg uint32
-			cur, _ := n.Observe()
+			if cur.ApiErr != "" {
+				break // already in the trace (the observation after the previous call carries apiErr)
+			}
 			mhp := cur.Mhpv
 			if rr {
 				gen = 1 + int(h)%nact
 				mhg = lastGen[gen]
 			} else {
 				gen = 1 + r.Intn(NVal)
-				switch r.Intn(10) {
+				if big && r.Intn(8) != 0 {
+					// mostly the validators take turns
+					gen = 1 + int(h)%101
+				}
+				k := r.Intn(10)
+				if big && r.Intn(2) == 0 {
+					k = 9 // the long chain is mostly honest
+				}
+				switch k {
 				case 0:
 					mhg = h // no votes implied
 				case 1:
 					mhg = h + uint32(r.Intn(3))
 				case 2, 3:
 					mhg = uint32(r.Intn(int(h)))
+					if big && r.Intn(2) == 0 {
+						mhg = lastGen[gen]
+					}
 				default:
 					mhg = lastGen[gen] // honest: largest height generated so far
 				}
-				if r.Intn(12) == 0 {
+				if r.Intn(12) == 0 && !(big && r.Intn(2) == 0) {
 					mhp = uint32(r.Intn(int(h)))
 				}
+			}
+			contra := func(hd bftx.Hdr) (bool, []int, bool) {
+				pc, perr := n.Contradicting(n.Header(hd))
+				resP := []int{}
+				for _, p := range peers {
+					ph := hd
+					ph.H, ph.Mhg, ph.Mhp, ph.AcH = hd.H+p.sc.S, hd.Mhg+p.sc.S, hd.Mhp+p.sc.S, hd.AcH+p.sc.S
+					x, e := p.n.Contradicting(p.n.Header(ph))
+					if e != nil {
+						perr = e
+					}
+					resP = append(resP, tj.B(x))
+				}
+				return pc, resP, perr != nil
 			}
 			// directed probes at the far end of the window: a validator whose latest block is the OLDEST header the window
 			// still holds (exactly win blocks below the new height) offers a header that claims less than that block's height
 			if h > uint32(win) {
+				gs := []int{}
 				for g, lh := range lastGen {
 					if lh == h-uint32(win) && lh > h0 && lh >= 1 {
-						ph := n.Header(bftx.Hdr{H: h, Gen: uint32(g), Mhg: lh - 1, Mhp: mhp, AcH: cur.Cert})
-						pc, perr := n.Contradicting(ph)
-						if perr != nil {
-							fail("IsHeaderContradictingChain: " + perr.Error())
-						}
-						w.Emit(map[string]interface{}{"ev": "Contra", "h": h, "gen": g, "mhg": lh - 1, "mhp": mhp, "res": tj.B(pc)})
-						meta["contra_boundary_probes"]++
-						if pc {
-							meta["contra_true"]++
-						}
+						gs = append(gs, g)
+					}
+				}
+				sort.Ints(gs)
+				for _, g := range gs {
+					lh := lastGen[g]
+					pc, resP, perr := contra(bftx.Hdr{H: h, Gen: uint32(g), Mhg: lh - 1, Mhp: mhp, AcH: cur.Cert})
+					w.Emit(map[string]interface{}{"ev": "Contra", "h": h, "gen": g, "mhg": lh - 1, "mhp": mhp, "res": tj.B(pc), "resP": resP, "err": tj.B(perr)})
+					meta["contra_boundary_probes"]++
+					if pc {
+						meta["contra_true"]++
 					}
 				}
 			}
+			// aggregate commit: empty (certified height unchanged whatever height the commit names) or non-empty (either byte
+			// field is enough), see updateMaxHeightCertified
 			hd := bftx.Hdr{H: h, Gen: uint32(gen), Mhg: mhg, Mhp: mhp, AcH: cur.Cert}
-			if !rr && r.Intn(6) == 0 && cur.Mhpc > cur.Cert {
-				hd.AcNonEmpty = true
-				hd.AcH = cur.Cert + 1 + uint32(r.Intn(int(cur.Mhpc-cur.Cert)))
+			if !rr {
+				k := r.Intn(12)
+				switch {
+				case k <= 1 && cur.Mhpc > cur.Cert:
+					hd.AcNonEmpty = true
+					hd.AcH = cur.Cert + 1 + uint32(r.Intn(int(cur.Mhpc-cur.Cert)))
+					meta["ac_full"]++
+				case k == 2 && cur.Mhpc > cur.Cert:
+					hd.AcKind = bftx.AcBitsOnly
+					hd.AcH = cur.Cert + 1 + uint32(r.Intn(int(cur.Mhpc-cur.Cert)))
+					meta["ac_bits_only"]++
+				case k == 3 && cur.Mhpc > cur.Cert:
+					hd.AcKind = bftx.AcSigOnly
+					hd.AcH = cur.Cert + 1 + uint32(r.Intn(int(cur.Mhpc-cur.Cert)))
+					meta["ac_sig_only"]++
+				case k == 4:
+					// empty commit that names another height: nothing is certified by it
+					hd.AcH = uint32(r.Intn(int(h) + 2))
+					if r.Intn(2) == 0 {
+						hd.AcH = cur.Cert + 1 + uint32(r.Intn(3))
+					}
+					if r.Intn(2) == 0 {
+						hd.AcKind = bftx.AcNil
+					}
+					if hd.AcH != cur.Cert {
+						meta["ac_empty_other_height"]++
+					}
+				case k == 5:
+					hd.AcKind = bftx.AcNil
+					meta["ac_nil"]++
+				}
 			}
-			hdr := n.Header(hd)
-			contra, err := n.Contradicting(hdr)
-			if err != nil {
-				fail("IsHeaderContradictingChain: " + err.Error())
-			}
-			w.Emit(map[string]interface{}{"ev": "Contra", "h": h, "gen": gen, "mhg": mhg, "mhp": mhp, "res": tj.B(contra)})
-			if contra {
+			pc, resP, perr := contra(hd)
+			w.Emit(map[string]interface{}{"ev": "Contra", "h": h, "gen": gen, "mhg": mhg, "mhp": mhp, "res": tj.B(pc), "resP": resP, "err": tj.B(perr)})
+			if pc {
 				meta["contra_true"]++
 				if r.Intn(3) != 0 {
 					// the engine would reject this header; try another one most of the time
 					continue
 				}
 			}
+			hdr := n.Header(hd)
 			err = n.Apply(hdr)
-			n2.PrevID = hdr.PreviousBlockID
-			n2.Apply(n2.Header(hd)) //nolint
 			implies := false
 			if err == nil {
 				implies, _ = n.Mod.API().ImpliesMaximalPrevotes(n.Store, hdr.Readonly())
 			}
 			n.Flush()
+			errP, impliesP := []int{}, []int{}
+			for _, p := range peers {
+				ph := hd
+				ph.H, ph.Mhg, ph.Mhp, ph.AcH = hd.H+p.sc.S, hd.Mhg+p.sc.S, hd.Mhp+p.sc.S, hd.AcH+p.sc.S
+				phdr := p.n.Header(ph)
+				e := p.n.Apply(phdr)
+				im := false
+				if e == nil {
+					im, _ = p.n.Mod.API().ImpliesMaximalPrevotes(p.n.Store, phdr.Readonly())
+				}
+				if p.flush {
+					p.n.Flush()
+				}
+				errP = append(errP, tj.B(e != nil))
+				impliesP = append(impliesP, tj.B(im))
+			}
 			if err == nil {
 				tip = h
 				if h > lastGen[gen] {
 					lastGen[gen] = h
 				}
 			}
-			o, oerr := observe(n, r, tip)
-			if oerr != nil {
-				fail(oerr.Error())
-			}
+			o := watch(tip)
+			bits, sig := hd.AcShape()
 			w.Emit(map[string]interface{}{"ev": "Header", "h": h, "gen": gen, "mhg": mhg, "mhp": mhp, "acH": hd.AcH,
-				"acNonEmpty": tj.B(hd.AcNonEmpty), "err": tj.B(err != nil), "implies": tj.B(implies), "obs": o})
+				"acBits": tj.B(bits), "acSig": tj.B(sig), "err": tj.B(err != nil), "errP": errP, "implies": tj.B(implies), "impliesP": impliesP, "obs": o})
+			comparePeers(o, false)
 			meta["headers"]++
 			if o.Mhpc > h0 {
 				meta["headers_with_finality"]++
+			}
+			if noParam {
+				meta["no_param_headers"]++
 			}
 			if err != nil {
 				meta["header_errors"]++
 				break
 			}
-			if !rr && r.Intn(7) == 0 {
+			if len(o.Win) == win && big {
+				meta["big_full_window_headers"]++
+			}
+			chg := 7
+			if big {
+				chg = 40
+			}
+			if !rr && r.Intn(chg) == 0 {
 				nw := randWeights(r, batch)
-				if r.Intn(3) == 0 { // small change of the current set
+				if big || r.Intn(3) == 0 { // small change of the current set
 					nw = append([]uint64{}, wts...)
 					nw[r.Intn(NVal)] = uint64(r.Intn(3))
+					if big {
+						nw[r.Intn(NVal)] = uint64(r.Intn(3))
+						nw[r.Intn(NVal)] = uint64(1 + r.Intn(3))
+					}
 				}
 				if r.Intn(8) == 0 {
 					nw = append([]uint64{}, wts...) // unchanged set (no-op expected)
@@ -310,18 +746,28 @@ func main() {
 				if r.Intn(8) == 0 {
 					npc, nce = pcT, certT
 				}
-				setParams(npc, nce, nw, tip)
 				// remember what is in force for later "unchanged" probes
-				wts, pcT, certT = nw, npc, nce
+				if setParams(npc, nce, nw, tip) {
+					wts, pcT, certT = nw, npc, nce
+				}
+				if r.Intn(10) == 0 {
+					nw2 := append([]uint64{}, nw...)
+					nw2[r.Intn(NVal)] = uint64(r.Intn(4))
+					if total(nw2) == 0 {
+						nw2[0] = 2
+					}
+					npc, nce = randThreshold(r, nw2), randThreshold(r, nw2)
+					if setParams(npc, nce, nw2, tip) {
+						wts, pcT, certT = nw2, npc, nce
+					}
+					meta["double_set"]++
+				}
 			}
 		}
-		n.Flush()
-		n2.Flush()
-		if d1, d2 := bftx.DumpDB(n.DB), bftx.DumpDB(n2.DB); d1 != d2 {
-			w.Emit(map[string]interface{}{"ev": "Nondeterministic", "chain": c})
-			meta["nondeterministic"]++
+		comparePeers(watch(tip), true)
+		for _, p := range peers {
+			p.n.Close()
 		}
-		n2.Close()
 		meta["chains"]++
 		if rr {
 			meta["rr_chains"]++
